@@ -77,12 +77,17 @@ pub fn run(seed: u64, tier: &str, w: &mut dyn Write) -> usize {
     // whose public inputs are the direct evaluation; all gadget families, standard / narrow / wide rows
     {
         let nprog = if tier == "thorough" { 600 } else { 150 };
-        let wcfgs = [("std", cfgs[0].1.clone()), ("narrow", narrow_config()), ("wide", wide_config())];
+        let std = cfgs[0].1.clone();
+        // base arithmetic routed through the extension gates; four constants per row (ConstantGate packing,
+        // RandomAccessGate extra constants)
+        let no_base = plonky2::plonk::circuit_data::CircuitConfig { use_base_arithmetic_gate: false, ..std.clone() };
+        let consts4 = plonky2::plonk::circuit_data::CircuitConfig { num_constants: 4, ..std.clone() };
+        let wcfgs = [("std", std), ("narrow", narrow_config()), ("wide", wide_config()), ("no_base_arith", no_base.clone()), ("consts4", consts4.clone())];
         for i in 0..nprog {
             let kinds = [127u32, 97, 99, 111, 63, 101][i % 6];
             let size = [12usize, 30, 60, 25][i % 4] + r.below(10) as usize;
             let p = gen_program(&mut r, size, kinds);
-            let (cname, cfg) = &wcfgs[i % 3];
+            let (cname, cfg) = &wcfgs[i % 5];
             let (_, pubs) = dsl::eval_native(&p).unwrap();
             let (ok, why, pis): (u64, String, Vec<u64>) = match crate::c02::build_circ(&p, cfg) {
                 Err(e) => (0, format!("build {e}"), vec![]),
@@ -102,9 +107,32 @@ pub fn run(seed: u64, tier: &str, w: &mut dyn Write) -> usize {
                 writeln!(w, "{}", line("prog", &dsl::encode(&p), &pis.iter().map(|x| x.to_string()).collect::<Vec<_>>().join(" "))).unwrap();
                 n += 1;
             }
-            writeln!(w, "{}{}", line("c01verdict", &[300 + (i % 3) as u64, i as u64, kinds as u64, p.ops.len() as u64], &ok.to_string()),
+            writeln!(w, "{}{}", line("c01verdict", &[300 + (i % 5) as u64, i as u64, kinds as u64, p.ops.len() as u64], &ok.to_string()),
                      if why.is_empty() { String::new() } else { format!(" # witness-only {cname} {}", why.replace(' ', "_")) }).unwrap();
             n += 1;
+        }
+    }
+    // full prove / verify under the two extra configurations
+    {
+        let std = cfgs[0].1.clone();
+        let extra = [(310u64, plonky2::plonk::circuit_data::CircuitConfig { use_base_arithmetic_gate: false, ..std.clone() }),
+                     (311u64, plonky2::plonk::circuit_data::CircuitConfig { num_constants: 4, ..std.clone() })];
+        for (tag, ecfg) in extra.iter() {
+            for pi in 0..(if tier == "thorough" { 4 } else { 1 }) {
+                let p = gen_program(&mut r, 20 + 15 * pi, 127);
+                let res = build_and_prove(&p, ecfg);
+                let (ok, pis) = match &res {
+                    Ok(b) => {
+                        let pis: Vec<u64> = b.proof.public_inputs.iter().map(|x| x.to_canonical_u64()).collect();
+                        ((verdict(&b.data, b.proof.clone()) == "ok" && pis == b.expected_pis) as u64, pis)
+                    }
+                    Err(_) => (0, vec![]),
+                };
+                writeln!(w, "{}", line("prog", &dsl::encode(&p), &pis.iter().map(|x| x.to_string()).collect::<Vec<_>>().join(" "))).unwrap();
+                let why = match &res { Ok(_) => String::new(), Err(e) => format!(" # config{} {}", tag, e) };
+                writeln!(w, "{}{}", line("c01verdict", &[*tag, pi as u64, 127, p.ops.len() as u64], &ok.to_string()), why).unwrap();
+                n += 2;
+            }
         }
     }
     // Keccak commitments (KeccakGoldilocksConfig): prove / verify / public inputs
